@@ -11,6 +11,7 @@ CONSTANTS
  FP <- FPid
  MaxOps = 3
  MaxCount = 0
+ WithScan = TRUE
  AllowClose = FALSE
  Dev = {}
  MaxHist = 17
